@@ -25,6 +25,21 @@ type generatedMethod struct {
 	Jen        jen.Code
 
 	IndexID method.IndexID
+
+	// Callers are the methods whose generated body calls this method.
+	// They must be regenerated when the signature of this method changes.
+	Callers map[method.IndexID]struct{}
+
+	// Available are the context types obtainable from the creator of a generated method.
+	Available map[string]*xtype.Type
+}
+
+// signatureChanged marks the method and every method calling it for regeneration.
+func (m *generatedMethod) signatureChanged(g *generator) {
+	m.Dirty = true
+	for caller := range m.Callers {
+		g.lookup.ByID(caller).Dirty = true
+	}
 }
 
 type generator struct {
@@ -32,6 +47,17 @@ type generator struct {
 	conf   *config.Converter
 	lookup *method.Index[generatedMethod]
 	extend *method.Index[method.Definition]
+}
+
+func (g *generator) registerCaller(ctx *builder.MethodContext, definition *method.Definition) {
+	for _, m := range g.lookup.GetAll() {
+		if m.Definition == definition {
+			if m.Callers == nil {
+				m.Callers = map[method.IndexID]struct{}{}
+			}
+			m.Callers[ctx.IndexID] = struct{}{}
+		}
+	}
 }
 
 func (g *generator) getGenMethods() []*generatedMethod {
@@ -62,7 +88,11 @@ func (g *generator) buildDirtyMethods() error {
 		}
 		genMethod.Dirty = false
 		veriftrace.Emit("gen.pick", "m", genMethod.Name)
-		err := g.buildMethod(genMethod, genMethod.Context)
+		available := genMethod.Context
+		if !genMethod.Explicit && genMethod.Available != nil {
+			available = genMethod.Available
+		}
+		err := g.buildMethod(genMethod, available)
 		veriftrace.Emit("gen.end", "m", genMethod.Name, "ok", err == nil, "retErr", genMethod.ReturnError, "ctx", genMethod.Context)
 		if err != nil {
 			err = err.Lift(&builder.Path{
@@ -317,6 +347,7 @@ func (g *generator) CallMethod(
 	}
 
 	veriftrace.Emit("gen.call", "caller", g.lookup.ByID(ctx.IndexID).Name, "callee", definition.Name, "generated", definition.Generated, "custom", definition.CustomCall != nil, "retErr", definition.ReturnError, "ctx", definition.Context)
+	g.registerCaller(ctx, definition)
 	qual := g.qualMethod(definition)
 	if definition.ReturnError {
 		name := ctx.Name(target.ID())
@@ -348,7 +379,7 @@ func (g *generator) ReturnError(ctx *builder.MethodContext, errPath builder.Erro
 
 			if !check.ReturnError {
 				check.ReturnError = true
-				check.Dirty = true
+				check.signatureChanged(g)
 				veriftrace.Emit("gen.neederr", "m", check.Name)
 			}
 		}
@@ -384,7 +415,7 @@ func (g *generator) requireContext(ctx *builder.MethodContext, need *xtype.Type)
 			Use:  method.ArgUseContext,
 			Type: need,
 		})
-		check.Dirty = true
+		check.signatureChanged(g)
 		veriftrace.Emit("gen.needctx", "m", check.Name, "t", need.String)
 	}
 	return true
@@ -558,6 +589,7 @@ func (g *generator) createSubMethod(ctx *builder.MethodContext, sourceID *xtype.
 	path := append([]method.IndexID{ctx.IndexID}, orig.OriginPath...)
 	genMethod := &generatedMethod{
 		OriginPath: path,
+		Available:  ctx.AvailableContext,
 		Method: &config.Method{
 			Common:      g.conf.Common,
 			Fields:      map[string]*config.FieldMapping{},
